@@ -64,6 +64,7 @@ def gen(rng, tier):
         spec["cfg"]["init_state"] = rng.random() < 0.5
     elif rng.random() < 0.08 and not any(op.get("op") == "reload" for op in ops):
         spec["model"]["worker_copies"] = True  # workers are shallow copies of one template object
+        spec["model"]["comp_copies"] = True
     if rng.random() < 0.1:
         m = spec["model"]
         n0 = len(m["tasks"])
